@@ -2,6 +2,7 @@ package main
 
 import (
 	"fmt"
+	"go/types"
 	"math/big"
 	"strings"
 )
@@ -616,7 +617,13 @@ func toSMT(e Expr, env *Env) Term {
 		i := wantInt(toSMT(e.I, env))
 		switch x.Sort.Kind {
 		case KSeq:
-			return T(x.Sort.Elem, "(select (seq.el %s) %s)", x.S, i.S)
+			r := T(x.Sort.Elem, "(select (seq.el %s) %s)", x.S, i.S)
+			if x.Ty != nil {
+				if sl, ok := x.Ty.Underlying().(*types.Slice); ok {
+					r.Ty = sl.Elem()
+				}
+			}
+			return r
 		case KArr:
 			return T(x.Sort.Elem, "(select %s %s)", x.S, i.S)
 		case KMap:
@@ -847,6 +854,14 @@ func callSMT(e *ECall, env *Env) Term {
 		}
 		s := a[0].S
 		return T(SBool, "(forall ((q!i Int) (q!j Int)) (=> (and (<= 0 q!i) (< q!i q!j) (< q!j (seq.len %s))) (not (= (select (seq.el %s) q!i) (select (seq.el %s) q!j)))))", s, s, s)
+	}
+	if strings.HasPrefix(e.Fn, "mk_") && env.Sorts != nil {
+		if ss, ok := env.Sorts[strings.TrimPrefix(e.Fn, "mk_")]; ok && ss.Kind == KStruct {
+			if len(a) != len(ss.Fields) {
+				specFail("%s expects %d fields", e.Fn, len(ss.Fields))
+			}
+			return T(ss, "(%s %s)", e.Fn, joinTerms(a))
+		}
 	}
 	if env.Pure != nil {
 		if t, ok := env.Pure(e.Fn, a); ok {
